@@ -99,10 +99,11 @@ std::vector<vfps::impedance_t> vfps::Impedance::readData(std::string fname)
 {
     std::vector<vfps::impedance_t> rv;
     std::ifstream is(fname);
-    size_t lineno;
     size_t old_lineno(std::numeric_limits<size_t>::max());
-    frequency_t real;
-    frequency_t imag;
+    // initialized, so that an empty or malformed file does not add garbage
+    size_t lineno(old_lineno);
+    frequency_t real(0);
+    frequency_t imag(0);
 
     while(is.good()) {
         is >> lineno >> real >> imag;
